@@ -121,6 +121,11 @@ def seeds_for(rng, label, scheme):
 
 
 def correspondence(ctx):
+    # prompt termination first, in a child process that can be killed: if a recogniser backtracks without end, the
+    # in-process streams below would sit on the same kind of input (and a hang inside the `re` module cannot be interrupted)
+    _hang_screen(ctx)
+    if any(k.startswith("termination-screen") for k, _r, _f in ctx.rep.violations):
+        return
     n = 25000 if ctx.thorough else 1200
     for mod, stream in (("corr_textvers", "vers-text-model"), ("corr_npm", "npm-model"), ("corr_gempypi", "gem-pypi-model"),
                         ("corr_mavenconan", "maven-nuget-conan-model"), ("corr_advisory", "advisory-model")):
@@ -430,9 +435,8 @@ def _hang_screen(ctx):
 
 
 def _timing(ctx):
-    _hang_screen(ctx)
     if ctx.rep.violations:
-        return          # the scaling probes below would sit on the same input
+        return          # the scaling probes below may sit on the same input
     kmax = 15 if ctx.thorough else 12
     shapes = {
         "version": ["1.", "1-", "0", "a1", "1~", "1_p", ".", "1+"],
